@@ -65,4 +65,8 @@ CHECKS["C18"] = dict(level="model_checking",
    technique="TLA+ spec Split (SplitSeconds/Femtos/JoinSeconds/fraction rendering over exact integers) model-checked by TLC (floor, join-split, range-failure laws) + TLC trace validation of split_seconds, lookup/convert/format on time_point<D> and parse/join_seconds events for 13 duration types",
    text="The floor laws are TLC invariants on all counts -400..400 x 5 ratios; every real call of the template panel (each remainder class on both sides of the epoch, each representation's limits, int8/int16/int32 overflow boundaries) is validated by TLC against the same operators, including the rendered %s / %E#f / %E*f text.",
    note=_TB + "sub-second targets only inside their own range (header TODO #199 is outside the property).")
+CHECKS["C19"] = dict(level="model_checking",
+   technique="TLA+ spec Names (PathOf / LocalName decision table over env + recorded file system) with Fixed, TZif!Decode and Zone!Break as the meaning of the resolved data + TLC trace validation of one child process per environment (fixture tree incl. unreadable file via dropped privileges)",
+   text="The decision table TZDIR x TZ x LOCALTIME x 38 name forms is enumerated completely (48 environments quick, 180 thorough); each row's ok / name() / equality with UTC / 8 lookups is decided by TLC from the environment values and the bytes found at the candidate paths.",
+   note=_TB + "environment enumeration is exhaustive over the listed values, not over all strings; Android/Fuchsia fallbacks verified absent.")
 NOT_APPLICABLE = {}
